@@ -140,6 +140,18 @@ def install(ctx):
                 layers=list(P.shape), levels=list(lev.shape), n=int(n), cls=type(self).__name__)
         if P.shape == (n,):
             c.close('contract:array-grid.profile-is-the-given-array', P, a, 1e-15, cls=type(self).__name__)
+        if P.shape == (n,) and lev.shape == (n + 1,) and not _h.get('in_twin'):
+            # the levels belong to the layer pressures the profile HOLDS (whatever order, unit or file they came in):
+            # a fresh array profile given those layer pressures as they stand has the same levels
+            _h['in_twin'] = True
+            try:
+                twin = ArrayPressureProfile(P.copy())
+                twin.compute_pressure_profile()
+                tl = np.asarray(twin.pressure_profile_levels, dtype=float)
+            finally:
+                _h['in_twin'] = False
+            c.close('contract:array-grid.levels-are-those-of-the-layer-pressures-held', lev, tl, 1e-14,
+                    cls=type(self).__name__, reverse=bool(self.__dict__['_vmon_decl'][1].get('reverse')))
         return True
 
     ArrayPressureProfile.compute_pressure_profile = icontract.ensure(
